@@ -67,6 +67,29 @@ def zero_led_rsa_signatures(ctx):
     return out
 
 
+def unencoded_via_plain_entry(ctx):
+    """Genuine RFC 7797 tokens (b64:false, crit:[b64]) whose unencoded payload happens to be base64url text, handed to the
+    RFC 7515 / JWT entry points, which do not implement the option: the signature covers the payload segment as it stands,
+    so returning its base64url decoding would return octets that were never signed - the call must fail."""
+    out = []
+    for alg, kn in (("HS256", "oct32"), ("ES256", "p256"), ("RS256", "rsa2048"), ("EdDSA", "ed25519")):
+        priv = J.native_priv(kn)
+        pub = J.make_key(kn)
+        for text in (b"eyJzdWIiOiJhZG1pbiIsInNjb3BlIjoiKiJ9", b"YWJj", b"AAAA"):
+            for hdr in ({"alg": alg, "b64": False, "crit": ["b64"]}, {"alg": alg, "crit": ["b64"], "b64": False, "typ": "JWT"}):
+                hseg = J.b64u(J.jwsref.spell(hdr, ctx.rng, 0))
+                sig = J.b64u(J.jwsref.sign(alg, priv, hseg + b"." + text))
+                meta = {"alg": alg, "key": kn, "payload": text, "header": dict(hdr)}
+                tok = hseg + b"." + text + b"." + sig
+                out.append(J.VCase("c7797", tok, pub, note="valid-attached", meta=meta))                 # the proper entry point accepts it
+                out.append(J.VCase("compact", tok, pub, note="7797-token-via-plain-entry", meta=meta))
+                flat = {"protected": hseg.decode(), "payload": text.decode(), "signature": sig.decode()}
+                out.append(J.VCase("flat", flat, pub, note="7797-token-via-plain-entry", meta=meta))
+                out.append(J.VCase("general", {"payload": text.decode(), "signatures": [{"protected": hseg.decode(), "signature": sig.decode()}]}, pub,
+                                   note="7797-token-via-plain-entry", meta=meta))
+    return out
+
+
 def unprotected_only(ctx):
     """Flattened JWS whose only header is the unprotected one (nothing but the payload is signed), and the
     RFC 7797 switch injected into that unprotected header."""
@@ -132,7 +155,7 @@ def multi_signer(ctx):
 
 
 def run(ctx):
-    cases = build(ctx, 1 if ctx.tier == "quick" else 6) + unprotected_only(ctx) + multi_signer(ctx) + zero_led_rsa_signatures(ctx)
+    cases = build(ctx, 1 if ctx.tier == "quick" else 6) + unprotected_only(ctx) + multi_signer(ctx) + zero_led_rsa_signatures(ctx) + unencoded_via_plain_entry(ctx)
     J.run_verify_cases(ctx, "jws-verify", cases, check_c01=True, prop="C01")
     if ctx.tier == "thorough":
         # every bit of every decoded segment for one token per algorithm family
